@@ -9,9 +9,9 @@ C13 — model of the persistence paths of `hydrodiy.gis.grid` (after the `fix:` 
 * `Grid.load`            : `np.fromfile` with the byte order of the header, count check, reshape,
                            `_clipdata`, `astype`                                               → `load`
 * `Grid.data` setter     : shape check, `_clipdata`, `astype` (same dtype)                     → `setData`
-* `Grid.to_dict/from_dict`, `Grid.clone`, `Grid.clip`                                          → `toDict`, `fromDict`, `clone`, `clip`
+* `Grid.to_dict/from_dict`, `Grid.clone(dtype)`, `Grid.clip`                                   → `toDict`, `fromDict`, `clone`, `cloneAs`, `clip`
 * `Catchment.to_dict/from_dict`                                                                → `catchToDict`, `catchFromDict`
-* clone independence: grids as handles into an explicit array store                            → `Store`, `SOp`
+* clone independence: grids as handles into an explicit array store                            → `Store`, `SOp`, `Store.clone`, `Store.cloneMap`
 
 Strings are `List Char`; cell values and the no-data value are *words* (the bit pattern of the numpy
 scalar, `< 256^itemsize`), so that "bit-identical" is equality. Georeferencing numbers are an abstract
@@ -248,6 +248,8 @@ structure NumIO (ν : Type) where
   castW : DType → ν → Option Nat
   /-- bit pattern of `floatN(i)` for a python int -/
   ofIntW : DType → Int → Option Nat
+  /-- `ndarray.astype` on one word between two different dtypes of which at least one is a float type -/
+  convW : DType → DType → Nat → Nat
   /-- `float(i)` / the literals `0.`, `1.` -/
   ofInt : Int → ν
   sub : ν → ν → ν
@@ -630,8 +632,22 @@ def fromDict {ν : Type} (io : NumIO ν) (d : GridDict ν) : Except Err (Grid ν
   | none => .error .badDtype
   | some (_, t) => mkGrid io d.name d.ncols d.nrows d.csz d.xll d.yll t (.text d.nodata) d.comment
 
-/-- `Grid.clone()` (`copy.deepcopy`; the `dtype` argument is not modelled) -/
+/-- `Grid.clone()` (`copy.deepcopy`) -/
 def clone {ν : Type} (g : Grid ν) : Grid ν := g
+
+/-- `ndarray.astype(dst)` on one word of dtype `src`: nothing to convert for the same dtype, two's-complement
+wrap between integer types (the C cast), external as soon as a float type is involved -/
+def astypeWord {ν : Type} (io : NumIO ν) (src dst : DType) (w : Nat) : Nat :=
+  if src = dst then w else
+  match src.kind, dst.kind with
+  | .float, _ => io.convW src dst w
+  | _, .float => io.convW src dst w
+  | _, _ => ofInt dst (toInt src w)
+
+/-- `Grid.clone(dtype)`: deep copy, then the `dtype` setter (`_dtype = dtype; _data = _data.astype(dtype)`);
+the no-data scalar is not converted -/
+def cloneAs {ν : Type} (io : NumIO ν) (g : Grid ν) (t : DType) : Grid ν :=
+  { g with dtype := t, data := g.data.map fun r => r.map (astypeWord io g.dtype t) }
 
 /-! ## 8. clip -/
 
@@ -747,6 +763,11 @@ def SOp.apply (s : Store) (h : Handle) : SOp → Store × Handle
 
 /-- `clone()`: `deepcopy` allocates a new array with the same content -/
 def Store.clone (s : Store) (h : Handle) : Store × Handle := (s ++ [s.read h], ⟨s.length⟩)
+
+/-- `clone(dtype)`: the deep copy's array is replaced by `astype(dtype)`, always a new array — also when
+`dtype` is the dtype the grid already has (`f` is then the identity) -/
+def Store.cloneMap (s : Store) (h : Handle) (f : Nat → Nat) : Store × Handle :=
+  (s ++ [(s.read h).map fun r => r.map f], ⟨s.length⟩)
 
 def applyAll (s : Store) (h : Handle) : List SOp → Store × Handle
   | [] => (s, h)
